@@ -7,6 +7,10 @@ TRANSPARENT = {"ExprWithCleanups", "MaterializeTemporaryExpr", "CXXBindTemporary
 LOG_CALLS = {"_xbt_log_event_log", "_xbt_log_cat_init"}
 ABORT_CALLS = {"xbt_abort", "abort"}
 DROP_CALLS = {"xbt_backtrace_display_current"}
+# wrappers W(closure, ...) whose meaning for the calling actor is "run the closure once, now, and return its result"
+# (simcall_answered: the kernel runs the closure in maestro context while the caller is blocked). The closure is lifted
+# into a C function and called in place; the assumption is reported in gen.json "dropped".
+SYNC_WRAPPERS = {"simcall_answered"}
 ARITH_CASTS = {"IntegralCast", "FloatingToIntegral", "IntegralToFloating", "FloatingCast", "IntegralToBoolean",
                "FloatingToBoolean", "PointerToBoolean", "BooleanToSignedIntegral", "PointerToIntegral",
                "IntegralToPointer"}
@@ -589,6 +593,9 @@ class Emitter:
             rd = c["referencedDecl"]
             name = rd["name"]
             fnt = (rd.get("type") or {}).get("qualType")
+            if name in self.cfg.get("sync_wrappers", SYNC_WRAPPERS) and args and \
+                    skip(args[0]).get("kind") == "LambdaExpr":
+                return self.call_lambda_now(skip(args[0]), n, name)
             r = self.lib.free_call(self, n, name, args, fnt) if self.lib else None
             if r is not None:
                 return r
@@ -714,6 +721,76 @@ class Emitter:
             return r
         raise Unsupported("lambda in this position")
 
+    def call_lambda_now(self, lam, call, wrapper):
+        """W(lambda) for a synchronous wrapper W: the closure body becomes the C function <unit>__lambda<k>; captures
+        become its parameters (this -> self, by-copy -> value, by-reference -> pointer); the call is emitted in place."""
+        rec = lam["inner"][0]
+        ops = [c for c in rec.get("inner", []) if c.get("kind") == "CXXMethodDecl" and c.get("name") == "operator()"]
+        fields = [c for c in rec.get("inner", []) if c.get("kind") == "FieldDecl"]
+        if len(ops) != 1:
+            raise Unsupported("generic lambda")
+        op = ops[0]
+        if any(c.get("kind") == "ParmVarDecl" for c in op.get("inner", [])):
+            raise Unsupported("lambda with parameters passed to %s" % wrapper)
+        body = [c for c in op.get("inner", []) if c.get("kind") == "CompoundStmt"]
+        caps = lam["inner"][1:1 + len(fields)]
+        if len(body) != 1 or len(caps) != len(fields):
+            raise Unsupported("lambda layout")
+        ret = self.ctype(call)
+        self.unit.lambdas = getattr(self.unit, "lambdas", 0) + 1
+        cname = "%s__lambda%d" % (self.unit.cname, self.unit.lambdas - 1)
+        params, ptypes, avs, binds = [], [], [], []
+        for f, cap in zip(fields, caps):
+            core = skip(cap)
+            ft = parse(qt(f))
+            if core.get("kind") == "CXXThisExpr":
+                tag = self.tm.class_tag_of(self.ptype(core))
+                params.append("struct %s* self" % tag)
+                ptypes.append("struct %s*" % tag)
+                avs.append("self")
+            elif core.get("kind") == "DeclRefExpr" and core["referencedDecl"].get("kind") in ("VarDecl", "ParmVarDecl"):
+                rd = core["referencedDecl"]
+                name = self.local_name(rd)
+                if "->" in name:
+                    raise Unsupported("capture of a structured binding")
+                if ft.kind in ("ref", "rref"):
+                    ct = self.tm.c(ft.to) + "*"
+                    avs.append(self.addr_of(core))
+                    binds.append((rd["id"], name, True))
+                else:
+                    ct = self.tm.c(ft)
+                    avs.append(self.E(cap))
+                    binds.append((rd["id"], name, False))
+                params.append("%s %s" % (ct, name))
+                ptypes.append(ct)
+            else:
+                raise Unsupported("lambda capture initialised by %s" % core.get("kind"))
+        saved = (self.unit, self.unit_ret, self.unit_ret_isref, self.locals, self.local_names, self.ref_ids,
+                 self.used_local_names, self.pre, self.cn, self.callflag)
+        unit = Unit(cname, op, self.unit.cls, "lambda")
+        self.begin_unit(unit, ret, False)
+        for did, name, isref in binds:
+            self.locals.add(did)
+            self.local_names[did] = name
+            self.used_local_names[name] = did
+            if isref:
+                self.ref_ids.add(did)
+        blines = self.s_CompoundStmt(body[0], "")
+        (self.unit, self.unit_ret, self.unit_ret_isref, self.locals, self.local_names, self.ref_ids,
+         self.used_local_names, self.pre, self.cn, self.callflag) = saved
+        text = ""
+        for k in range(unit.loops):
+            m = "VF_LOOP_%s_%d" % (cname, k)
+            text += "#ifndef %s\n#define %s\n#endif\n" % (m, m)
+        text += "/* ---- closure passed to %s in %s ---- */\n" % (wrapper, self.unit.cname)
+        text += "%s %s(%s)\n%s\n" % (ret, cname, ", ".join(params) if params else "void", "\n".join(blines))
+        self.lifted.append(text)
+        self.note_proto(cname, ret, ptypes, "closure run by %s" % wrapper)
+        self.unit_names.add(cname)
+        self.dropped.append("%s(closure) = closure run once in place" % wrapper)
+        self.callflag = True
+        return "%s(%s)" % (cname, ", ".join(avs))
+
     def e_CXXStdInitializerListExpr(self, n):
         return self.E(n["inner"][0])
 
@@ -794,11 +871,11 @@ class Emitter:
             then = n["inner"][-1]
             if self.is_log_stmt(then):
                 return True
-            return contains(then, lambda x: x.get("kind") == "CallExpr" and
-                            skip(x["inner"][0]).get("referencedDecl", {}).get("name") in LOG_CALLS) and \
-                not contains(then, lambda x: x.get("kind") == "CallExpr" and
-                             skip(x["inner"][0]).get("referencedDecl", {}).get("name") in ABORT_CALLS) and \
-                not contains(then, lambda x: x.get("kind") in ("CXXThrowExpr", "ReturnStmt"))
+            # the macro's own block: { s_xbt_log_event_t _log_ev; _log_ev.f = ...; _xbt_log_event_log(&_log_ev, ...); }
+            # (an `if` of the program that merely CONTAINS a log statement is NOT a log statement)
+            return then.get("kind") == "CompoundStmt" and len(then.get("inner", [])) >= 1 and \
+                all(self.is_log_event_part(s) for s in then["inner"]) and \
+                any(s.get("kind") == "CallExpr" for s in then["inner"])
         if k == "CompoundStmt":
             ss = n.get("inner", [])
             return len(ss) >= 1 and all(self.is_log_stmt(s) for s in ss)
@@ -806,6 +883,23 @@ class Emitter:
             return skip(n["inner"][0]).get("referencedDecl", {}).get("name") in (LOG_CALLS | DROP_CALLS)
         if k in ("ExprWithCleanups",):
             return self.is_log_stmt(n["inner"][0])
+        return False
+
+    @staticmethod
+    def is_log_event_part(s):
+        """one statement of the XBT_LOG macro's block: declaration of _log_ev, a store into it, or the logging call"""
+        while s.get("kind") in TRANSPARENT:
+            s = s["inner"][0]
+        k = s.get("kind")
+        if k == "DeclStmt":
+            ds = s.get("inner", [])
+            return len(ds) == 1 and ds[0].get("kind") == "VarDecl" and ds[0].get("name") == "_log_ev"
+        if k == "BinaryOperator" and s.get("opcode") == "=":
+            lhs = skip(s["inner"][0])
+            return lhs.get("kind") == "MemberExpr" and \
+                skip(lhs["inner"][0]).get("referencedDecl", {}).get("name") == "_log_ev"
+        if k == "CallExpr":
+            return skip(s["inner"][0]).get("referencedDecl", {}).get("name") in LOG_CALLS
         return False
 
     def s_CompoundStmt(self, n, ind):
